@@ -28,9 +28,10 @@ func runC05(c *Ctx) {
 	c05Order(c)
 	c05Sorting(c, "C05.sorting")
 	c05Boundary(c)
+	delegateSiblingRule(c, "C05.delegate", []string{"NewColumnIndexer", "NewColumnBuffer", "NewDictionary", "NewPage"}, 10)
 	// statistics state carried across row groups
 	ci := newChainIndex(c.P)
-	for _, s := range c17ResetSpecs() {
+	for _, s := range c17ResetSpecs(c.P) {
 		if s.Type == "ColumnWriter" || strings.HasSuffix(s.Type, "ColumnIndexer") {
 			if s.Type == "ColumnWriter" {
 				s.Reset = []string{"(*ColumnWriter).reset"}
